@@ -30,6 +30,16 @@ R["C04"] = ("cases: graph x {signed_mpi, fvs_trees_mpi, fvs_trees_tbb_mpi, iso_t
 R["C08"] = ("cases: base graph x 3-6 exact entry points drawn from all 11 (3 sequential, 3 TBB, 5 MPI) x transformation pipeline of 1-4 steps x schedule/layout choices. "
             "distinct = (base graph hash, pipeline, entry set); non-trivial = cycle-space dimension >= 2 and at least two different back-ends compared")
 
+R["C10"] = ("cases: structured DIMACS lines rendered to text x final newline present/absent x seeded read-chunk sizes {all,1,2,3,7,16,100,1000}. distinct = (text hash, chunking fingerprint); "
+            "non-trivial = (a comment, an omitted weight, or no final newline) and the text was delivered in >= 2 chunks")
+R["C12"] = "cases: exact-domain graphs biased to ties (40% all-unit weights), n <= 12 (40 in thorough), every source, every ordered pair. distinct = graph hash; non-trivial = some vertex pair has >= 2 shortest paths"
+R["C13"] = "cases: simple graphs of all families incl. pendant trees and unions. distinct = graph hash; non-trivial = the graph has a cycle"
+R["C14"] = "cases: exact-domain graphs n <= 9 (24 in thorough). distinct = graph hash; non-trivial = dimension >= 2 and two candidate cycles tie in weight"
+R["C16"] = "cases: simple graphs incl. empty, edgeless, forests, unions. distinct = graph hash; non-trivial = >= 2 components or dimension >= 1"
+R["C17"] = "cases: operation sequences of length 1..40 over 4 vectors, dimension 1..64 (10%: 10^6). distinct = sequence hash; non-trivial = some addition cancelled a common coordinate"
+R["C18"] = ("cases: 30% ext_gcd pairs, 20% inverses, 12% primality blocks, 38% SpVecFP histories. distinct = case hash; non-trivial = negative or zero argument (gcd), a outside 0..p-1 (inverse), "
+            "every primality block, a wrap-around / negative / >= p scalar (SpVecFP)")
+
 def run(prop, tier, seed):
     if prop not in vlib.STAGES:
         print("HARNESS-ERROR: no check registered for " + prop)
